@@ -1137,6 +1137,15 @@ class Interp:
         if val is not None:
             path.facts[t] = ("eq", val)
             path.conds.append((t, "==", val))
+            t_ = t[1] if t[0] == "w" and isinstance(t[1], tuple) else t
+            if t_[0] in ("bin", "cast") and not (t_[0] == "bin" and t_[1] in CMP_OPS) and isinstance(val, int):
+                # `match x >> 31 { 0 => .. }`: the bits the scrutinee is built from are known on this arm
+                p0_ = Path()
+                p0_.maxbits = path.maxbits
+                for i, bit in enumerate(bitvec(t, p0_)):
+                    if bit is not None and bit not in (0, 1):
+                        cbit = (val >> i) & 1
+                        path.bitfacts.setdefault((bit[0], bit[1]), (1 - cbit) if bit[2] else cbit)
         else:
             old = path.facts.get(t)
             ex = set(vals_excluded)
@@ -1144,6 +1153,20 @@ class Interp:
                 ex |= set(old[1])
             path.facts[t] = ("ne", frozenset(ex))
             path.conds.append((t, "!=", tuple(sorted(ex))))
+            # a value built from one unknown bit (x >> 31 of a 32-bit x, (x >> 7) & 1, ...) that differs from a constant
+            # agreeing with its known bits: the unknown bit is the opposite one
+            t_ = t[1] if t[0] == "w" and isinstance(t[1], tuple) else t
+            if t_[0] in ("bin", "cast") and not (t_[0] == "bin" and t_[1] in CMP_OPS) and len(ex) == 1:
+                p0_ = Path()
+                p0_.maxbits = path.maxbits
+                xb = bitvec(t, p0_)
+                unk = [i for i, bit in enumerate(xb) if bit not in (0, 1)]
+                if len(unk) == 1 and xb[unk[0]] is not None:
+                    v_ = next(iter(ex))
+                    if all(bit == ((v_ >> i) & 1) for i, bit in enumerate(xb) if i != unk[0]) and (v_ >> len(xb)) == 0:
+                        bit = xb[unk[0]]
+                        nb = 1 - ((v_ >> unk[0]) & 1)
+                        path.bitfacts[(bit[0], bit[1])] = (1 - nb) if bit[2] else nb
             # a boolean that is not 0 is 1
             if width_of(t, 0) == 8 and t[0] == "bin" and t[1] in CMP_OPS and ex == {0}:
                 path.facts[t] = ("eq", 1)
@@ -1192,6 +1215,16 @@ class Interp:
                 else:
                     if not is_int(a):
                         self.assume_cond(path, a, None, [b[1]])
+            # a signed comparison with zero reads the sign bit: x < 0 <=> top bit set, x >= 0 <=> top bit clear
+            if is_int(b) and b[1] == 0 and path.tags.get(("signed", t)) and op in ("Lt", "Ge"):
+                wa = width_of(a, 0)
+                if wa:
+                    xb = bitvec(a, Path())
+                    if len(xb) >= wa:
+                        bit = xb[wa - 1]
+                        if bit is not None and bit not in (0, 1):
+                            sv = int(truth == (op == "Lt"))
+                            path.bitfacts[(bit[0], bit[1])] = (1 - sv) if bit[2] else sv
             # range refinement: x <= 2^k-1, x < 2^k (unsigned comparisons only: a signed x below the bound may be negative)
             if is_int(b) and not path.tags.get(("signed", t)):
                 bound = None
@@ -1805,6 +1838,9 @@ class Interp:
                     return self._multi(path, frame, t, [(("citer", tuple(it[1]) + tuple(other)), path)], depth)
             if shortn == "count" and len(args) == 1:
                 return self._multi(path, frame, t, [(INT(len(it[1]), 64), path)], depth)
+            if shortn == "collect" and len(args) == 1 and re.search(r"\bVec<|Box<\[", " ".join(map(str, t["f"].get("gargs", [])))):
+                # the known elements gathered into a vector / boxed slice, in order
+                return self._multi(path, frame, t, [(("agg", "array", None, tuple(it[1])), path)], depth)
             if shortn in ("filter", "map", "fold", "any", "all", "find", "position", "for_each", "sum", "max", "min") and \
                     (len(args) >= 2 or shortn in ("sum", "max", "min")):
                 g = self._citer_adaptor(path, frame, t, shortn, it, args[1:], depth)
@@ -1978,6 +2014,16 @@ class Interp:
             return self._multi(path, frame, t, [(v, path)], depth)
         if name in ("std::mem::drop", "core::mem::drop"):
             return self._multi(path, frame, t, [(UNIT, path)], depth)
+        if name in ("std::mem::replace", "core::mem::replace") and len(args) == 2 and args[0][0] == "ref":
+            # the old value is handed out, the new one stored in its place
+            old_ = self.read_loc(path, args[0][1])
+            self.write_loc(path, args[0][1], args[1])
+            return self._multi(path, frame, t, [(old_, path)], depth)
+        if name in ("std::mem::swap", "core::mem::swap") and len(args) == 2 and args[0][0] == "ref" and args[1][0] == "ref":
+            a_, b_ = self.read_loc(path, args[0][1]), self.read_loc(path, args[1][1])
+            self.write_loc(path, args[0][1], b_)
+            self.write_loc(path, args[1][1], a_)
+            return self._multi(path, frame, t, [(UNIT, path)], depth)
         # --- integer helpers
         m = _INT_METHOD.match(name)
         if m:
@@ -2063,6 +2109,10 @@ class Interp:
                 path.events.append(("checked", op, a, b, "some"))
                 p2.events.append(("checked", op, a, b, "none"))
                 return self._multi(path, frame, t, [(SOME(val), path), (NONE, p2)], depth)
+            if meth in ("is_negative", "is_positive") and b is None and signed:
+                # x < 0 / x > 0 as the signed comparison the std body performs
+                r = self.binop(path, "Lt" if meth == "is_negative" else "Gt", a, INT(0, bits), 8, True)
+                return self._multi(path, frame, t, [(r, path)], depth)
             if meth in ("count_ones", "count_zeros", "leading_zeros", "trailing_zeros", "swap_bytes", "reverse_bits") and b is None:
                 if is_int(a):
                     v = a[1] & mask(bits)
